@@ -3,7 +3,7 @@
    short native name, C type of a descriptor) vs the model of jni/type.py + java/type.py (Marshal/Jni.v, tied to the
    code by the K-jni correspondence). *)
 From Coq Require Import List String Ascii Bool Arith.
-From PDV Require Import Lib.StrUtil Lang.Jvm Marshal.Jni Marshal.JniProofs Gen.ExternalTypes.
+From PDV Require Import Lib.StrUtil Lang.Jvm Marshal.Jni Marshal.JniProofs Gen.ExternalTypes Jinja.Tir Jinja.Interp Gen.Templates Jinja.FragFlags Jinja.FragRecord Jinja.FragJni.
 Import ListNotations.
 Open Scope string_scope.
 
@@ -59,6 +59,37 @@ Theorem C07_declared_ctypes : forall pkg name jt jb,
   native_agrees (mktyinfo (decl_type_signature pkg name) (decl_type_signature pkg name) "jobject" jt jb) = true.
 Proof. exact decl_native_agrees. Qed.
 Print Assumptions C07_declared_ctypes.
+
+(* ---- as printed: the look-up lines of the JNI header templates translated from /repo on this run ---- *)
+Theorem C07_record_field_lookups_as_printed : forall fl,
+  exec cpp_cfg rec_field_loop (jstate fl) = (jstate fl, concat "" (map field_lookup_line fl)).
+Proof. exact rec_field_lookups_render. Qed.
+Print Assumptions C07_record_field_lookups_as_printed.
+
+(* the constructor signature literal "(" <loop> ")V" of the record header is the JVM descriptor of the Java constructor *)
+Theorem C07_record_constructor_as_printed : forall fl, Forall (fun f => agrees (tr_ty (jf_ref f))) fl ->
+  ("(" ++ snd (exec cpp_cfg rec_sig_loop (jstate fl)) ++ ")V")%string = method_descriptor (map (fun f => data_type false (jf_ref f)) fl) "void".
+Proof.
+  intros fl H. rewrite rec_constructor_signature_renders. cbn [snd].
+  pose proof (method_signature_agrees (map jf_ref fl) None false) as M.
+  unfold type_signature in M. rewrite !map_map in M. cbv [return_type] in M. rewrite <- M.
+  - reflexivity.
+  - rewrite Forall_map. exact H.
+  - intros r E. discriminate E.
+Qed.
+Print Assumptions C07_record_constructor_as_printed.
+
+Theorem C07_method_lookups_as_printed : forall ml,
+  exec cpp_cfg meth_lookup_loop (mstate ml) = (mstate ml, concat "" (map method_lookup_line ml)).
+Proof. exact method_lookups_render. Qed.
+Print Assumptions C07_method_lookups_as_printed.
+
+Theorem C07_lookup_loops_are_the_templates :
+  Slice.nth_for "fields" 0 t_jni_header_record_jinja2_hpp = Some rec_sig_loop /\
+  Slice.nth_for "fields" 1 t_jni_header_record_jinja2_hpp = Some rec_field_loop /\
+  Slice.nth_for "methods" 1 t_jni_header_interface_jinja2_hpp = Some meth_lookup_loop.
+Proof. repeat split; vm_compute; reflexivity. Qed.
+Print Assumptions C07_lookup_loops_are_the_templates.
 
 (* non-vacuity: a method  f(a: i32?, b: list<string>) -> com.ex.Foo  *)
 Example C07_example :
